@@ -596,28 +596,7 @@ func newFH(cfg FCfg) *fh {
 		vclock.SetRand(cfg.Rand - 1)
 	}
 
-	switch cfg.Front {
-	case 0, 1:
-		var inner cache.ReadWriter
-		if cfg.Front == 0 {
-			inner = cache.NewShardedMap(bcfg.Use)
-		} else {
-			inner = cache.NewSyncMap(bcfg.Use)
-		}
-
-		f := cache.NewFailover(cache.FailoverConfig{
-			Name: "c", Backend: &bwrap{h: h, inner: inner}, SyncUpdate: cfg.SU, SyncRead: cfg.SR, FailHard: cfg.FH,
-			MaxStaleness: ms, FailedUpdateTTL: ft, UpdateTTL: upd, Stats: st, Logger: lg,
-		}.Use)
-		h.front = &frontF{f: f, inner: inner}
-	case 2:
-		inner := cache.NewShardedMapOf[Tok](bcfg.Use)
-		f := cache.NewFailoverOf[Tok](cache.FailoverConfigOf[Tok]{
-			Name: "c", Backend: &bwrapOf{h: h, inner: inner}, SyncUpdate: cfg.SU, SyncRead: cfg.SR, FailHard: cfg.FH,
-			MaxStaleness: ms, FailedUpdateTTL: ft, UpdateTTL: upd, Stats: st, Logger: lg,
-		}.Use)
-		h.front = &frontFO{f: f, inner: inner}
-	}
+	vsched.Construct(func() { h.construct(cfg, bcfg, st, lg, ms, ft, upd) })
 
 	// Preload entry states relative to a common advance of 10 minutes.
 	bg := context.Background()
@@ -644,6 +623,34 @@ func newFH(cfg FCfg) *fh {
 	}
 
 	return h
+}
+
+// construct creates the front-end and its backend (goroutines started here are daemons).
+func (h *fh) construct(cfg FCfg, bcfg cache.Config, st cache.StatsTracker, lg cache.Logger, ms, ft, upd time.Duration) {
+	switch cfg.Front {
+	case 0, 1:
+		var inner cache.ReadWriter
+
+		if cfg.Front == 0 {
+			inner = cache.NewShardedMap(bcfg.Use)
+		} else {
+			inner = cache.NewSyncMap(bcfg.Use)
+		}
+
+		f := cache.NewFailover(cache.FailoverConfig{
+			Name: "c", Backend: &bwrap{h: h, inner: inner}, SyncUpdate: cfg.SU, SyncRead: cfg.SR, FailHard: cfg.FH,
+			MaxStaleness: ms, FailedUpdateTTL: ft, UpdateTTL: upd, Stats: st, Logger: lg,
+		}.Use)
+		h.front = &frontF{f: f, inner: inner}
+	case 2:
+		inner := cache.NewShardedMapOf[Tok](bcfg.Use)
+		f := cache.NewFailoverOf[Tok](cache.FailoverConfigOf[Tok]{
+			Name: "c", Backend: &bwrapOf{h: h, inner: inner}, SyncUpdate: cfg.SU, SyncRead: cfg.SR, FailHard: cfg.FH,
+			MaxStaleness: ms, FailedUpdateTTL: ft, UpdateTTL: upd, Stats: st, Logger: lg,
+		}.Use)
+		h.front = &frontFO{f: f, inner: inner}
+	}
+
 }
 
 func (h *fh) builder(k int) func(ctx context.Context) (Tok, error) {
